@@ -51,6 +51,15 @@ def setup_sym(R):
     instrument.register(R.base_wallet.BaseWallet.from_mnemonic.__func__,
                         lambda cls, mnemonic, password="", testnet=False: _Rec(mnemonic=mnemonic, password=password,
                                                                               testnet=testnet))
+    # seed stretching is C03's subject: here it is an arbitrary 64-byte value per request (a sentence of symbolic words
+    # cannot be normalised character by character)
+    import z3
+    from sx import core
+    from sx.values import bytes_from_bv
+
+    def seed_stub(mnemonic, password=""):
+        return bytes_from_bv(core.CTX.newvar("seed", z3.BitVecSort(512)), 64)
+    instrument.register(R.bip39.bip39_seed_from_mnemonic, seed_stub)
 
 
 def word_indexes(E, R, sentence):
@@ -60,16 +69,42 @@ def word_indexes(E, R, sentence):
         if sentence == "":
             return []
         return [wl.index(w) for w in sentence.split(" ")]
+    # tokens are either one WordItem (word selected by a symbolic index) or a run of concrete characters (word selected by
+    # a concrete index, e.g. an 11-bit group that lies entirely inside concrete zero bytes); separated by single blanks
+    wl = list(R.bip39.word_list)
     out = []
-    its = sentence.items
-    for j, it in enumerate(its):
-        if j % 2 == 0:
-            if not isinstance(it, WordItem):
+    cur = None           # None: at a token start; ("w", idx) or ("s", text)
+    for it in sentence.items:
+        if isinstance(it, WordItem):
+            if cur is not None:
                 return None
-            out.append(it.idx)
-        elif it != " ":
+            cur = ("w", it.idx)
+        elif isinstance(it, str) and it == " ":
+            if cur is None:
+                return None
+            out.append(cur)
+            cur = None
+        elif isinstance(it, str):
+            if cur is None:
+                cur = ("s", it)
+            elif cur[0] == "s":
+                cur = ("s", cur[1] + it)
+            else:
+                return None
+        else:
             return None
-    return out
+    if cur is None:
+        return None if out else []
+    out.append(cur)
+    res = []
+    for kind, v in out:
+        if kind == "w":
+            res.append(v)
+        elif v in wl:
+            res.append(wl.index(v))
+        else:
+            return None
+    return res
 
 
 def ref_indexes(E, ent_bytes):
@@ -106,6 +141,34 @@ def encode(E, R, nbytes, upper, via_wallet):
     E.check(len(idx) == {16: 12, 20: 15, 24: 18, 28: 21, 32: 24}[nbytes], "word count is 12/15/18/21/24")
     ref = ref_indexes(E, ent)
     E.check_eq(idx, ref, "word indexes == 11-bit groups of entropy || checksum")
+    return "ok"
+
+
+def two_calls(E, R, n1, n2, via_wallet):
+    """two requests in one process: what the second one returns (or that it is refused) depends on its own entropy only.
+    The second entropy extends the first one by leading zero bytes or is unrelated -- whatever an earlier call left
+    behind (memo tables keyed by a value that identifies the entropy only up to leading zeros, say) must not matter."""
+    f = R.base_wallet.BaseWallet.from_entropy_hex if via_wallet else R.bip39.mnemonic_from_entropy
+    e1 = E.bytes("ent", n1)
+    if n2 >= n1:
+        e2 = b"\x00" * (n2 - n1) + e1          # same numeric value, more leading zero bytes
+    else:
+        e2 = E.bytes("ent2", n2)
+    r1 = E.run(f, e1.hex())
+    r2 = E.run(f, e2.hex() if n2 else "")
+    for r, e, n, which in ((r1, e1, n1, "first"), (r2, e2, n2, "second")):
+        if n not in VALID:
+            E.check(isinstance(r, Raised), "entropy of any other size is rejected (%s of two requests)" % which)
+            continue
+        if isinstance(r, Raised):
+            E.fail("entropy of a valid size is encoded (%s of two requests)" % which)
+            continue
+        s = r.mnemonic if via_wallet else r
+        idx = word_indexes(E, R, s)
+        if idx is None:
+            E.fail("sentence is words of the list separated by single blanks")
+            continue
+        E.check_eq(idx, ref_indexes(E, e), "word indexes == 11-bit groups of entropy || checksum (%s of two requests)" % which)
     return "ok"
 
 
@@ -206,6 +269,8 @@ def cases(tier):
     for lo in ((15, 16, 17, 19, 20, 21) if tier == "quick" else range(0, 41)):
         cs.append(Case("blanks2[%d]" % lo, "blanks", dict(lo=lo, hi=lo, nblank=2),
                        max_paths=100000, weight=2 * lo + 1))
+    for (n1, n2, via) in ((16, 20, True), (16, 17, True), (20, 32, False), (16, 16, True), (32, 16, True), (24, 28, True)):
+        cs.append(Case("two_calls[%d,%d,wallet=%s]" % (n1, n2, via), "two_calls", dict(n1=n1, n2=n2, via_wallet=via), weight=n1 + n2))
     cs.append(Case("wordlist", "wordlist", need=("word list is the official english.txt (SHA-256 of the file)",)))
     cs.append(Case("validators", "validators", need=("validator accepts only the five sizes",)))
     return cs
